@@ -2,6 +2,7 @@ package main
 
 import (
 	"fmt"
+	"go/token"
 	"go/types"
 	"os"
 	"sort"
@@ -51,7 +52,7 @@ func loadEngine(repo string, patterns []string, overlay map[string][]byte) (*Eng
 	}
 	prog, spkgs := ssautil.AllPackages(pkgs, ssa.BuilderMode(0))
 	prog.Build()
-	eng := &Engine{pkgs: pkgs, prog: prog, spkgs: map[string]*ssa.Package{}, conOf: map[*ssa.Function]*Contract{}, byName: map[string]*ssa.Function{}, effMemo: map[*ssa.Function]*effSet{}}
+	eng := &Engine{overlay: overlay, pkgs: pkgs, prog: prog, spkgs: map[string]*ssa.Package{}, conOf: map[*ssa.Function]*Contract{}, byName: map[string]*ssa.Function{}, effMemo: map[*ssa.Function]*effSet{}}
 	if len(pkgs) > 0 {
 		eng.fset = pkgs[0].Fset
 	}
@@ -434,4 +435,54 @@ func (vc *VC) frameObligations(exit *State, binds map[string]Val) {
 			o.Pos = con.Pos
 		}
 	}
+}
+
+// sourceLine returns the text of the source line containing pos.
+func (eng *Engine) sourceLine(pos token.Pos) string {
+	if !pos.IsValid() {
+		return ""
+	}
+	p := eng.fset.Position(pos)
+	if eng.srcCache == nil {
+		eng.srcCache = map[string][]string{}
+	}
+	lines, ok := eng.srcCache[p.Filename]
+	if !ok {
+		b, err := os.ReadFile(p.Filename)
+		if err == nil {
+			lines = strings.Split(string(b), "\n")
+		}
+		if ov, ok := eng.overlay[p.Filename]; ok {
+			lines = strings.Split(string(ov), "\n")
+		}
+		eng.srcCache[p.Filename] = lines
+	}
+	if p.Line-1 < len(lines) && p.Line >= 1 {
+		return strings.TrimSpace(lines[p.Line-1])
+	}
+	return ""
+}
+
+// lineOrdinal: 1-based position of pos's line among the lines of fn's source
+// whose (whitespace-normalised) text equals want.
+func (eng *Engine) lineOrdinal(fn *ssa.Function, pos token.Pos, want string) int {
+	if !pos.IsValid() || fn.Syntax() == nil {
+		return 0
+	}
+	p := eng.fset.Position(pos)
+	start := eng.fset.Position(fn.Syntax().Pos()).Line
+	end := eng.fset.Position(fn.Syntax().End()).Line
+	eng.sourceLine(pos) // fills the cache
+	lines := eng.srcCache[p.Filename]
+	norm := func(s string) string { return strings.Join(strings.Fields(s), " ") }
+	n := 0
+	for ln := start; ln <= end && ln-1 < len(lines); ln++ {
+		if norm(lines[ln-1]) == norm(want) {
+			n++
+			if ln == p.Line {
+				return n
+			}
+		}
+	}
+	return 0
 }
